@@ -65,7 +65,7 @@ Family(c) ==
     \cup (IF c.t = "string"
           THEN {MkSet("allowed_values", A) :
                    A \in {{}, {1}, {2, 3}, {1, 2, 3, 4}, {1, 2, 3, 4, 5}, NNVals(c), NNVals(c) \ {SMax(NNVals(c) \cup {1})}}}
-               \cup {MkSet("rex", R) : R \in {{1}, {2}, {3}, {2, 4}, {1, 3}, {5}}}
+               \cup {MkSet("rex", R) : R \in {{}, {1}, {2}, {3}, {2, 4}, {1, 3}, {5}}}       \* (an empty list is a list no value matches, not a null)
           ELSE {MkSet("allowed_values", {1, 2}), MkSet("rex", {5})})
     \cup {MkNull(k) : k \in {"type", "min", "max", "min_length", "max_length", "sign", "max_nulls",
                              "no_duplicates", "allowed_values", "rex"}}
@@ -73,7 +73,8 @@ Family(c) ==
 ----------------------------------------------------------------------------
 (* invariants: one line per claim *)
 ImplIsSpec      == \A con \in Family(col) : Demanded(con, col) => (ImplSat(con, col) = SpecSat(con, col))
-MissingFails    == \A con \in Family(col) : ~con.isnull => (SpecSat(con, Missing) = FALSE /\ ImplSat(con, Missing) = FALSE)
+\* (null-valued constraints included: the field's absence is looked at first, for every kind)
+MissingFails    == \A con \in Family(col) : (SpecSat(con, Missing) = FALSE /\ ImplSat(con, Missing) = FALSE)
 NullValuedPasses == \A k \in {"type", "min", "max", "sign", "max_nulls", "rex"} : SpecSat(MkNull(k), col)
 FlagsImplIsSpec == \A con \in Family(col) :
                       (FlagsDemanded(con, col) /\ ~con.isnull /\ ~SpecSat(con, col))
